@@ -125,8 +125,12 @@ def build_units(cfg, work, ov):
         return i, u, out, r, time.time() - t0
 
     # units are built in parallel (a multi-unit check would otherwise pay every link step in sequence)
+    # units of the same package share one test binary
+    first = {}
+    for i, u in enumerate(cfg["units"]):
+        first.setdefault((u["package"], bool(u.get("race"))), i)
     with concurrent.futures.ThreadPoolExecutor(max_workers=4) as ex:
-        futs = [ex.submit(build_one, i, u) for i, u in enumerate(cfg["units"])]
+        futs = [ex.submit(build_one, i, u) for i, u in enumerate(cfg["units"]) if first[(u["package"], bool(u.get("race")))] == i]
         for f in futs:
             i, u, out, r, dt = f.result()
             if r.returncode != 0 or not os.path.exists(out):
@@ -136,6 +140,9 @@ def build_units(cfg, work, ov):
                 raise SystemExit(2)
             bins[i] = out
             log("built %s in %.1fs" % (u["package"], dt))
+    for i, u in enumerate(cfg["units"]):
+        if bins[i] is None:
+            bins[i] = bins[first[(u["package"], bool(u.get("race")))]]
     return bins
 
 
